@@ -12,49 +12,50 @@ func jsonUnmarshal(b []byte, v interface{}) error { return json.Unmarshal(b, v) 
 
 // Evidence aggregates what a check run actually covered.
 type Evidence struct {
-	tier        string
-	seed        uint64
-	build       *Build
-	Runs        int
-	PlainRuns   int
-	RaceRuns    int
-	ColdRuns    int
-	Batches     int
-	Steps       uint64
-	SimS        float64
-	Switches    uint64
-	Inflight    uint64
-	Ops         int
-	LibOps      int
-	Skipped     int
-	Errs        int
-	Panics      int
-	Faults      map[string]int
-	sigs        map[string]bool
-	allSigs     map[string]bool
-	sites       map[int]bool
-	pairs       map[int]bool
-	numSites    int
-	numLabels   int
-	byStrat     map[string]int
-	byGran      map[string]int
-	byMode      map[string]int
-	byTasks     map[int]int
-	opCounts    map[string]map[string]int
-	Divergent   int
-	LoadRaces   int
-	ProbeN      int
-	probeEx     []Violation
-	samples     []interface{}
-	Violations  int
-	wall        float64
-	workerS     float64
-	slowest     float64
-	seedsUsed   []uint64
-	sampleRefs  []sampleRef
-	forcedOp    int
-	canaryProcs int
-	canaryKeys  int
+	tier         string
+	seed         uint64
+	build        *Build
+	Runs         int
+	PlainRuns    int
+	RaceRuns     int
+	ColdRuns     int
+	Batches      int
+	Steps        uint64
+	SimS         float64
+	AloneChecked int
+	Switches     uint64
+	Inflight     uint64
+	Ops          int
+	LibOps       int
+	Skipped      int
+	Errs         int
+	Panics       int
+	Faults       map[string]int
+	sigs         map[string]bool
+	allSigs      map[string]bool
+	sites        map[int]bool
+	pairs        map[int]bool
+	numSites     int
+	numLabels    int
+	byStrat      map[string]int
+	byGran       map[string]int
+	byMode       map[string]int
+	byTasks      map[int]int
+	opCounts     map[string]map[string]int
+	Divergent    int
+	LoadRaces    int
+	ProbeN       int
+	probeEx      []Violation
+	samples      []interface{}
+	Violations   int
+	wall         float64
+	workerS      float64
+	slowest      float64
+	seedsUsed    []uint64
+	sampleRefs   []sampleRef
+	forcedOp     int
+	canaryProcs  int
+	canaryKeys   int
 }
 
 type sampleRef struct {
@@ -330,6 +331,7 @@ func (e *Evidence) write(path string) error {
 			"op_only_scheduling":                                         e.build.Desc.OpOnly,
 			"blocking_sync_in_tree":                                      e.build.Desc.BlockingSync,
 			"non_sentinel_package_vars":                                  e.build.Desc.PkgVars,
+			"runs_repeated_alone_in_a_fresh_process_O8":                  e.AloneChecked,
 			"calibration_hot_kinds_and_units_hex":                        e.build.Hot,
 			"worker_cpu_s":                                               e.workerS,
 			"slowest_batch_s":                                            e.slowest,
